@@ -215,7 +215,11 @@ func (s *Sim) BuildMsg(a *Action) sdk.Msg {
 		case "owner":
 			p.Owner = a.Extra["owner"]
 		case "cid":
-			p.Cid = CidC
+			if p.Cid == CidC {
+				p.Cid = CidA
+			} else {
+				p.Cid = CidC
+			}
 		case "sig":
 			sig.Signature = "AAAA" + sig.Signature[4:]
 		case "nosig":
